@@ -53,19 +53,24 @@ func c14bBody(r *simcore.Run) {
 	}
 	r.Defer(func() { d.Close() })
 	ctx := context.Background()
-	if _, _, err := d.SQLExec(ctx, nil, &schema.SQLExecRequest{Sql: "CREATE TABLE t (id INTEGER, v VARCHAR[64], PRIMARY KEY id, CONSTRAINT c_pos CHECK (id > 0))"}); err != nil {
-		r.Violation("ddl", "", "CREATE TABLE failed: %v", err)
-	}
-	if _, _, err := d.SQLExec(ctx, nil, &schema.SQLExecRequest{Sql: "CREATE INDEX ON t (v)"}); err != nil {
-		r.Violation("ddl", "", "CREATE INDEX failed: %v", err)
-	}
-	if _, err := d.CreateCollection(ctx, "admin", &protomodel.CreateCollectionRequest{Name: "c", Fields: []*protomodel.Field{{Name: "tag", Type: protomodel.FieldType_STRING}}, Indexes: []*protomodel.Index{{Fields: []string{"tag"}}}}); err != nil {
-		r.Violation("ddl", "", "CreateCollection failed: %v", err)
+	// layer C: the retention loop of pkg/truncator chooses the cuts by the (simulated) clock; some of
+	// those databases hold plain keys only (no SQL catalog: the catalog copy that precedes every
+	// truncation is then a transaction without entries)
+	useLoop := r.Pct(40)
+	kvOnly := useLoop && r.Pct(35)
+	if !kvOnly {
+		if _, _, err := d.SQLExec(ctx, nil, &schema.SQLExecRequest{Sql: "CREATE TABLE t (id INTEGER, v VARCHAR[64], PRIMARY KEY id, CONSTRAINT c_pos CHECK (id > 0))"}); err != nil {
+			r.Violation("ddl", "", "CREATE TABLE failed: %v", err)
+		}
+		if _, _, err := d.SQLExec(ctx, nil, &schema.SQLExecRequest{Sql: "CREATE INDEX ON t (v)"}); err != nil {
+			r.Violation("ddl", "", "CREATE INDEX failed: %v", err)
+		}
+		if _, err := d.CreateCollection(ctx, "admin", &protomodel.CreateCollectionRequest{Name: "c", Fields: []*protomodel.Field{{Name: "tag", Type: protomodel.FieldType_STRING}}, Indexes: []*protomodel.Index{{Fields: []string{"tag"}}}}); err != nil {
+			r.Violation("ddl", "", "CreateCollection failed: %v", err)
+		}
 	}
 	r.Sched.SetSwitchPct(r.Pick(100, 50, 20))
 
-	// layer C: the retention loop of pkg/truncator chooses the cuts by the (simulated) clock
-	useLoop := r.Pct(40)
 	retention := time.Duration(r.Pick(24, 48)) * time.Hour
 	var loop *truncator.Truncator
 	loopRuns := 0
@@ -90,7 +95,11 @@ func c14bBody(r *simcore.Run) {
 				}
 				seq++
 				id := seq
-				switch r.Intn(3) {
+				kind := r.Intn(3)
+				if kvOnly {
+					kind = 0
+				}
+				switch kind {
 				case 0:
 					k, v := fmt.Sprintf("k%d", id), pad(id)
 					hdr, err := d.Set(ctx, &schema.SetRequest{KVs: []*schema.KeyValue{{Key: []byte(k), Value: []byte(v)}}})
@@ -238,6 +247,15 @@ func c14bBody(r *simcore.Run) {
 				c05IdxViol(r, "documents-after-truncation", "%s: document %s written by tx %d (cut %d) reads back (%v, %v)", what, it.key, it.tx, cut, rev, rerr)
 			}
 		}
+		if kvOnly {
+			st, _ := d.CurrentState()
+			for id := cut; id != 0 && id <= st.TxId; id++ {
+				if _, _, _, err := d.ExportTxByID(ctx, &schema.ExportTxRequest{Tx: id}); err != nil {
+					r.Violation("export", "", "%s: ExportTxByID(%d) (cut %d) failed: %v", what, id, cut, err)
+				}
+			}
+			return
+		}
 		// the catalog works: tables and collections are still there and writable
 		seq++
 		_, _, ierr := d.SQLExec(ctx, nil, &schema.SQLExecRequest{Sql: fmt.Sprintf("INSERT INTO t (id, v) VALUES (%d, 'after')", 100000+seq)})
@@ -273,7 +291,7 @@ func c14bBody(r *simcore.Run) {
 	}
 	verify("after restart")
 	r.Sig("c14b", truncations, cut > 0, len(kvs), len(rows), len(docs))
-	r.Sample(map[string]interface{}{"layer": "database truncator", "retention_loop": useLoop, "loop_truncations": loopRuns, "truncations": truncations, "last_cut": cut, "kv": len(kvs), "rows": len(rows), "documents": len(docs)})
+	r.Sample(map[string]interface{}{"layer": "database truncator", "retention_loop": useLoop, "kv_only": kvOnly, "loop_truncations": loopRuns, "truncations": truncations, "last_cut": cut, "kv": len(kvs), "rows": len(rows), "documents": len(docs)})
 }
 
 // c14cLogger counts the truncations the retention loop completed.
